@@ -1,4 +1,5 @@
 // C01 — parallel loops. Oracle half.
+#include <semaphore.h>
 #include <stdio.h>
 #include <string.h>
 
@@ -357,11 +358,16 @@ void c01_body_exit(int h)
 }
 
 void c01_prefill_ran(void) { sim_probe(P_PREFILL); }
+static sem_t blocker_sem;  // modelled by the simulator; a thread blocked on it uses up none of the run's step budget
 void c01_blocker(void)
 {
+  // with a full pipe enkiTS runs a scheduled function on the scheduling thread itself: the placeholder must not make the
+  // caller wait for a release only the caller can give
+  if (sim_self() == 0)
+    return;
   blockers_started++;
   while (!blockers_released)
-    sim_yield();
+    sem_wait(&blocker_sem);
 }
 void c01_wait_blockers(int n)
 {
@@ -369,7 +375,12 @@ void c01_wait_blockers(int n)
   while (blockers_started < n && sim_steps() < bound)
     sim_yield();
 }
-void c01_release_blockers(void) { blockers_released = 1; }
+void c01_release_blockers(void)
+{
+  blockers_released = 1;
+  for (int i = 0; i < blockers_started; i++)
+    sem_post(&blocker_sem);
+}
 
 void c01_slot_check(int h, long long idx, int value)
 {
